@@ -7,7 +7,7 @@ The hash `H` is an arbitrary function (nothing is assumed about blake3): conclus
 import JubakoModel.Model.Pack
 import JubakoModel.Lemmas.Codec
 import JubakoModel.Lemmas.Mask
-import JubakoModel.Lemmas.Funcs
+import JubakoModel.Lemmas.FuncsCheck
 
 set_option maxRecDepth 8000
 
